@@ -271,6 +271,46 @@ impl<A: H, B: H> H for TupleABRegion<A, B> {
     }
 }
 
+/// Tuple regions of arity >= 3 are presented to the model as right-nested pairs: (a, b, c) ~ (a, (b, c)).  The
+/// model has one pair combinator (Region/Simple.v: tuple2); the flat Rust types are tied to its nesting.
+macro_rules! flat_tuple_h {
+    ($ty:ident; $a:ident $ia:tt; $($r:ident $ir:tt),+) => {
+        impl<$a: H, $($r: H),+> H for $ty<$a, $($r),+> {
+            fn of_u(u: &U) -> Option<Self::Owned> {
+                let mut cur = u;
+                let $a = match cur { U::L(l) if l.len() == 2 => { cur = &l[1]; $a::of_u(&l[0])? } _ => return None };
+                flat_tuple_h!(@of cur; $($r),+);
+                Some(($a, $($r),+))
+            }
+            fn to_u(v: &Self::Owned) -> U {
+                flat_tuple_h!(@nest $a::to_u(&v.$ia); $($r::to_u(&v.$ir)),+)
+            }
+            fn idx_u(i: Self::Index) -> U {
+                flat_tuple_h!(@nest $a::idx_u(i.$ia); $($r::idx_u(i.$ir)),+)
+            }
+            fn probe(it: Self::ReadItem<'_>) -> U {
+                flat_tuple_h!(@nest $a::probe(it.$ia); $($r::probe(it.$ir)),+)
+            }
+        }
+    };
+    (@of $cur:ident; $last:ident) => { let $last = $last::of_u($cur)?; };
+    (@of $cur:ident; $h:ident, $($t:ident),+) => {
+        let $h = match $cur { U::L(l) if l.len() == 2 => { $cur = &l[1]; $h::of_u(&l[0])? } _ => return None };
+        flat_tuple_h!(@of $cur; $($t),+);
+    };
+    (@nest $last:expr;) => { $last };
+    (@nest $h:expr; $($t:expr),*) => { U::L(vec![$h, flat_tuple_h!(@nest2 $($t),*)]) };
+    (@nest2 $last:expr) => { $last };
+    (@nest2 $h:expr, $($t:expr),+) => { U::L(vec![$h, flat_tuple_h!(@nest2 $($t),+)]) };
+}
+#[allow(non_snake_case)]
+mod flat_tuples {
+    use super::*;
+    flat_tuple_h!(TupleABCRegion; A 0; B 1, C 2);
+    flat_tuple_h!(TupleABCDRegion; A 0; B 1, C 2, D 3);
+    flat_tuple_h!(TupleABCDERegion; A 0; B 1, C 2, D 3, E 4);
+}
+
 impl<R: H> H for CollapseSequence<R> {
     fn of_u(u: &U) -> Option<R::Owned> {
         R::of_u(u)
